@@ -6,13 +6,13 @@ LEVEL_TEXT = ("K: has_small_order blocklist membership, the all-zero output test
 TRUSTED = ["CBMC 6.11", "RFC 7748 commutativity X25519(a, X25519(b, 9)) = X25519(b, X25519(a, 9)) (assumed per key pair)",
            "the list of 7 low-order/non-canonical encodings is complete (Bernstein; trusted)"]
 ASSUMPTIONS = []
-OUTSIDE = ["the composition argument itself (field kernels == ring operations [E2 limb], ladder over ring operations == RFC 7748 for all scalars and u [E2 ring, inductive], cswap / frombytes / tobytes [CBMC], inversion exponent [E2]) is on paper; limb-bound compatibility between consecutive kernels is checked per kernel for limbs <= 2^54, not along the ladder",
+OUTSIDE = ["the composition argument itself (field kernels == ring operations [E2 limb], ladder over ring operations == RFC 7748 for all scalars and u [E2 ring, inductive], cswap / frombytes / tobytes [CBMC], inversion exponent [E2]) is on paper; limb bounds along the ladder are an inductive E2 obligation (x25519-ladder-bounds); the bounds inside fe25519_invert's chain follow from the same kernel bounds (mul/sq outputs are tight) and are not re-checked there",
            "sandy2x assembly back end", "base-point table contents"]
 
 COMMON = ["sodium/utils.c", "crypto_verify/verify.c"]
 
 
-E2_LIMB = ["fe25519-51-x25519", "x25519-ladder-rfc7748", "x25519-invert"]
+E2_LIMB = ["fe25519-51-x25519", "x25519-ladder-rfc7748", "x25519-invert", "x25519-ladder-bounds"]
 
 
 LEVEL_TEXT = LEVEL_TEXT + (" Field kernels (E2 irsym limb mode): the compiled fe25519_mul/sq/mul32/add/sub of the X25519 unit are executed on LLVM IR with limbs as integer polynomials + intervals; "
